@@ -39,6 +39,9 @@ type Spec struct {
 	Role func(c vc01.Case) string
 	// Std is a small well-formed two-way request (resp=false) or response (resp=true) carrying id.
 	Std func(resp bool, id uint64) []byte
+	// WireID reads the request id of the first frame of b (a request, or a response
+	// when resp) with the reference parser; n = length of that frame.
+	WireID func(b []byte, resp bool) (id uint64, n int, err error)
 	// CheckAck returns "" when ack is one well-formed heartbeat answer carrying the id of the case's frame.
 	CheckAck func(c vc01.Case, ack []byte) string
 	// DiffClass names the class of a byte difference ("" = none of the special ones).
@@ -149,6 +152,10 @@ func Bolt(v2 bool) *Spec {
 			f.Headers = []vref.KV{{K: []byte("service"), V: []byte("svc")}, {K: []byte("k"), V: []byte("v")}}
 			f.Content = []byte("std-body")
 			return f.Encode()
+		},
+		WireID: func(b []byte, resp bool) (uint64, int, error) {
+			f, n, err := vref.ParseBolt(b)
+			return uint64(f.ID), n, err
 		},
 		CheckAck: func(c vc01.Case, ack []byte) string {
 			f, n, err := vref.ParseBolt(ack)
@@ -340,6 +347,10 @@ func Dubbo() *Spec {
 				Attachments: []vref.KV{{K: []byte("k"), V: []byte("v")}}}
 			return vref.DubboFrame{Magic: vref.DubboMagic, Flag: dubboFlag("request"), ID: id, Payload: inv.Encode()}.Encode()
 		},
+		WireID: func(b []byte, resp bool) (uint64, int, error) {
+			f, n, err := vref.ParseDubbo(b)
+			return f.ID, n, err
+		},
 		CheckAck: func(c vc01.Case, ack []byte) string {
 			f, n, err := vref.ParseDubbo(ack)
 			switch {
@@ -477,6 +488,10 @@ func DubboThrift() *Spec {
 				f.MsgType = 2
 			}
 			return f.Encode()
+		},
+		WireID: func(b []byte, resp bool) (uint64, int, error) {
+			f, n, err := vref.ParseDubboThrift(b)
+			return f.ID, n, err
 		},
 		CheckAck: func(c vc01.Case, ack []byte) string { return "the dubbothrift codec knows no heartbeat" },
 		Bound:    fmt.Sprintf("dirs %v of the dubbothrift codec grid (service-name x method-name x binary field; %s)", thriftDirs, quickBound),
@@ -677,6 +692,14 @@ func Tars() *Spec {
 			}
 			return vref.TarsRequest{Version: 1, ID: int32(uint32(id)), Servant: []byte("svc"), Func: []byte("echo"), Buffer: []byte("std-body"),
 				Timeout: 3000, Context: []vref.KV{{K: []byte("k"), V: []byte("v")}}, Status: []vref.KV{}}.Encode()
+		},
+		WireID: func(b []byte, resp bool) (uint64, int, error) {
+			if resp {
+				f, n, err := vref.ParseTarsResponse(b)
+				return uint64(uint32(f.ID)), n, err
+			}
+			f, n, err := vref.ParseTarsRequest(b)
+			return uint64(uint32(f.ID)), n, err
 		},
 		CheckAck: func(c vc01.Case, ack []byte) string { return "the tars codec knows no heartbeat" },
 		DiffClass: func(c vc01.Case, want, got []byte) string {
